@@ -5,7 +5,7 @@ import SciVerif.Tie.Pins
 /-! Tie A obligations for C17 on the current source. -/
 namespace SciVerif.Tie
 -- functions the model relies on without an obligation of its own naming them (pinned by bin/mkpins):
--- PIN-ALSO: Scipipe.Process_initPortsFromCmdPattern Scipipe.FileIP_FifoFileExists Scipipe.InPort_Send Scipipe.OutPort_Send
+-- PIN-ALSO: Scipipe.Process_initPortsFromCmdPattern Scipipe.FileIP_FifoFileExists Scipipe.InPort_Send Scipipe.OutPort_Send Scipipe.FileIP_RemoveFifo
 open SciVerif.Generated SciVerif.TaskFS
 
 theorem generated_wf_c01_for_c17 : WF_C01 taskSem := by decide
@@ -39,6 +39,7 @@ theorem c17_on_source (c : Cfg) (pre : Nat → Option File) (n p : Nat) (hp : is
 
 theorem generated_all_ops_known_c17 : taskSemKnown = true := by decide
 
+
 -- BEGIN PINS (written by bin/mkpins; do not edit by hand)
 /-- the Go functions this property's model and obligations were written against have exactly the
 pinned skeletons (SHA-256 prefix of the atom list) -/
@@ -47,6 +48,7 @@ theorem pinned_skeletons_c17 :
     [("Scipipe.FileIP_CreateFifo", "f6360b33d779c2ee"),
      ("Scipipe.FileIP_FifoFileExists", "b822f2c3227ef952"),
      ("Scipipe.FileIP_FifoPath", "03369ad2f75ce2a0"),
+     ("Scipipe.FileIP_RemoveFifo", "d75e1f9b7c4511cb"),
      ("Scipipe.FinalizePaths", "291fc0cefa37cea9"),
      ("Scipipe.InPort_Send", "62cb51bf3ab53084"),
      ("Scipipe.NewTask", "95298f03c320cb96"),
@@ -61,8 +63,8 @@ theorem pinned_skeletons_c17 :
 -- END PINS
 
 end SciVerif.Tie
-#print axioms SciVerif.Tie.generated_all_ops_known_c17
 #print axioms SciVerif.Tie.pinned_skeletons_c17
+#print axioms SciVerif.Tie.generated_all_ops_known_c17
 #print axioms SciVerif.Tie.generated_wf_c01_for_c17
 #print axioms SciVerif.Tie.generated_streams_exempt
 #print axioms SciVerif.Tie.generated_fifo_protocol
